@@ -260,9 +260,9 @@ def parse_field_value(
             field[0],
             context,
         )
-    # should be unreachable. Every code path to here tests types
-    raise AssertionError(
-        f"Unknown field {type(field)} type for {name}. Should be a string or 'object': \n {field} "
+    raise exc.DataGenSyntaxError(
+        f"Unknown field {type(field)} type for {name}. Should be a string or 'object': \n {field} ",
+        **context.line_num(),
     )
 
 
